@@ -76,6 +76,10 @@ impl DateTime {
     /// assert!(2021 < date_time.year());
     /// ```
     pub fn now() -> Self {
+        #[cfg(astrolabe_verif)]
+        if let Some(pinned) = crate::verif::pinned_now() {
+            return pinned;
+        }
         let duration = SystemTime::now()
             .duration_since(UNIX_EPOCH)
             .expect("Time went backwards");
